@@ -7,7 +7,7 @@ requests
   strip K | p-stream ; p-stream ; …      <tristrips> with stride K = max_offset + 1 (no `|`: no <p> at all)
   fan   K | p-stream ; p-stream ; …      <trifans>
   poly  K | vcounts | stream             <polylist>: triangleset() and per-polygon triangles()
-  pgons K | p-stream ; p-stream ; …      <polygons>: vcounts, then as poly
+  pgons K | p-stream ; p-stream ; …      <polygons>: vcounts, then as poly (no `|`: no <p> at all)
 answers
   ok T T …                               T = row/row/row, row = i,i,…
   ok vc=c,c,… tris=T T … per=T T;T;;T    per-polygon groups separated by `;`
@@ -46,6 +46,12 @@ def answer (line : String) : String :=
       | none => "bad-op"
     | ["fan", k] => match k.toNat? with
       | some k => showLoad (loadTris .fan k ([] : List (List Nat)))
+      | none => "bad-op"
+    | ["pgons", k] => match k.toNat? with
+      | some k =>
+        match polygonsRows k ([] : List (List Nat)) with
+        | some rows => showPoly rows (polygonsVcounts k ([] : List (List Nat)))
+        | none => "fail:reshape"
       | none => "bad-op"
     | _ => "bad-op"
   | [head, body] =>
